@@ -22,6 +22,19 @@ CHECKS = {
              "'any valid order gives the adjoint'. No axioms.",
         technique="Coq proof by potential-function invariant over the sweep + DFS order spec; exact-integer correspondence evaluated by vm_compute",
     ),
+    "C02": dict(
+        text="Machine-checked proofs (Coq + Coquelicot): for EVERY element-wise Operation class of MyGrad (50 classes: arithmetic, exp/log, trigonometric and inverse, hyperbolic and inverse, abs/sqrt/cbrt, "
+             "sinc, ELU/SELU/sigmoid/ReLU) and every operand, at EVERY point of the differentiable domain, is_derive (g * forward) = the formula backward_var returns -- over Gen/VjpScalar.v, which a "
+             "fail-closed ast translator regenerates from /repo on every run by symbolically executing each class' forward and backward_var; the documented conventions (|x|' = 0 at 0, arcsin/arccos/arccsc/"
+             "arcsec 0 at +-1, sinc 0 at 0) are theorems too. Index / bilinear / piecewise-linear operations: the exact-registry theorem (every registry op has an exact VJP over any commutative ring). Ties on "
+             "every run: translated formulas vs the classes run through Tensor._op on point grids (incl. 0, +-1, singular points); RealOps meanings vs NumPy; 2175 exact-integer single-op programs with systematic "
+             "options (all axis forms, keepdims, broadcasting, 0-d, indices, einsum/matmul shapes, max/min selection) compared in Coq; plus a numerical catalogue of ~1140 op x option entries incl. nnet layers/losses.",
+        design_ref="DESIGN.md 5 (C02)",
+        note="Partial: proofs are over the reals (rounding not modelled) and cover element-wise formulas + the exact registry; prod, cumprod, mean, var, std, norm, clip, softmax family, conv_nd, max_pool, batchnorm, gru "
+             "and the losses are covered only by the numerical catalogue (4th-order finite differences of MyGrad's own forward, tol 2e-6) = validation, not proof. NumPy kernels are assumed to compute the real functions "
+             "of Model/RealOps.v (checked numerically each run). Axioms: the standard library's real-number axioms (ClassicalDedekindReals.sig_not_dec, sig_forall_dec, functional_extensionality_dep) via Reals/Coquelicot.",
+        technique="Coq/Coquelicot derivative proofs over formulas translated from source on every run + exact-integer correspondence in Coq + numerical catalogue",
+    ),
     "C03": dict(
         text="Machine-checked (Coq, vm_compute over tables regenerated from the installed NumPy on every run): on the complete lattice {registered binary ufunc} x {12 real dtypes} x {Python bool/int/float} x {both operand "
              "orders}, the rule Tensor._op uses for a Python-scalar operand (cast to np.result_type of the operands, then NumPy's own resolution) yields exactly NumPy's NEP-50 result dtype; the pre-repair rule is refuted. "
